@@ -53,6 +53,9 @@ pub fn profile() -> Profile {
         w_gen: 8,
         w_recv: 8,
         w_connect: 2,
+        // read-only toggles and reconnects: messages carrying the read-only / reset flags, states after a reset
+        w_set_ro: 3,
+        w_disconnect: 1,
         connect_all_at_permille: Some(300),
         e_put_obj: 12,
         e_insert_obj: 5,
